@@ -3,4 +3,5 @@ CONSTANTS
   MissingOrder = "signature"
   Reorder = TRUE
   PadFromFront = FALSE
+  DocExtras = {}
 CHECK_DEADLOCK FALSE
